@@ -43,6 +43,28 @@ type tpCase struct {
 	AuxType   bool               `json:"auxType,omitempty"`
 	SaioV1    bool               `json:"saioV1,omitempty"`
 	Seig      bool               `json:"seig,omitempty"`
+	// OverrideFrags (per fragment, nil: none): the fragment carries a fragment-local 'seig' sample group entry that
+	// overrides the track's tenc with per-sample IVs of OvIVSize bytes (cbcs: instead of the constant IV; cenc:
+	// the other IV size); its samples are encrypted with OvIVs (one per sample of the file, used in those
+	// fragments only) and senc carries them. Fragments without override follow tenc.
+	OverrideFrags []bool             `json:"overrideFrags,omitempty"`
+	OvIVSize      int                `json:"ovIVSize,omitempty"`
+	OvIVs         []harness.HexBytes `json:"ovIVs,omitempty"`
+}
+
+// override reports whether sample i lies in a fragment with a seig override.
+func (c *tpCase) override(i int) bool {
+	if c.OverrideFrags == nil {
+		return false
+	}
+	first := 0
+	for f := range c.Clear.Frags {
+		if i < first+c.Clear.Frags[f].N {
+			return f < len(c.OverrideFrags) && c.OverrideFrags[f]
+		}
+		first += c.Clear.Frags[f].N
+	}
+	return false
 }
 
 func (c *tpCase) tenc() cryptgen.TencParams {
@@ -88,7 +110,19 @@ func (c *tpCase) buildEncrypted() (*cryptgen.Built, [][]byte, error) {
 			}
 			entries[i].Subs = c.Subs[i]
 		}
-		if cl.Scheme == "cenc" {
+		if c.override(i) {
+			if i >= len(c.OvIVs) || len(c.OvIVs[i]) != c.OvIVSize || (c.OvIVSize != 8 && c.OvIVSize != 16) {
+				return nil, nil, fmt.Errorf("tpCase: override IV size")
+			}
+			iv := make([]byte, 16)
+			copy(iv, c.OvIVs[i])
+			if cl.Scheme == "cenc" {
+				enc[i] = refcrypto.CencCrypt(cl.Key, iv, clear[i], ranges)
+			} else {
+				enc[i] = refcrypto.CbcsCrypt(cl.Key, iv, clear[i], ranges, int(c.Crypt), int(c.Skip), false)
+			}
+			entries[i].IV = c.OvIVs[i]
+		} else if cl.Scheme == "cenc" {
 			if len(c.IVs[i]) != c.IVSize {
 				return nil, nil, fmt.Errorf("tpCase: IV size")
 			}
@@ -125,7 +159,12 @@ func (c *tpCase) buildEncrypted() (*cryptgen.Built, [][]byte, error) {
 		}
 		saiz, saio, senc := raw(cryptgen.SaizBox(sizes, c.AuxType)), raw(cryptgen.SaioBox(0, v, c.AuxType)), raw(cryptgen.SencBox(es, c.UseSubs))
 		out := append([]fragbuild.ExtraBox(nil), own...)
-		if c.Seig {
+		if c.OverrideFrags != nil && f < len(c.OverrideFrags) && c.OverrideFrags[f] {
+			ov := tenc
+			ov.IVSize, ov.ConstIV = byte(c.OvIVSize), nil
+			sbgp, sgpd := cryptgen.SeigBoxes(len(es), ov)
+			out = append(out, raw(sbgp), raw(sgpd))
+		} else if c.Seig {
 			sbgp, sgpd := cryptgen.SeigBoxes(len(es), tenc)
 			out = append(out, raw(sbgp), raw(sgpd))
 		}
@@ -268,6 +307,30 @@ func genThirdParty(t *rapid.T) tpCase {
 	c.SaioV1 = rapid.IntRange(0, 3).Draw(t, "saioV1") == 0
 	c.Seig = rapid.IntRange(0, 2).Draw(t, "seig") == 0
 	n := len(cl.Samples)
+	if rapid.IntRange(0, 3).Draw(t, "seigOverride") == 0 {
+		// key-rotation style layout: some fragments override the track's tenc through a fragment-local seig entry
+		c.OverrideFrags = make([]bool, len(cl.Frags))
+		any := false
+		for f := range c.OverrideFrags {
+			c.OverrideFrags[f] = rapid.Bool().Draw(t, "overrideFrag")
+			any = any || c.OverrideFrags[f]
+		}
+		if !any {
+			c.OverrideFrags[rapid.IntRange(0, len(cl.Frags)-1).Draw(t, "overrideWhich")] = true
+		}
+		if cl.Scheme == "cenc" {
+			c.OvIVSize = 24 - c.IVSize // the other one of 8 and 16
+		} else {
+			c.OvIVSize = rapid.SampledFrom([]int{8, 16, 16}).Draw(t, "ovIVSize")
+		}
+		for i := 0; i < n; i++ {
+			iv := rapid.SliceOfN(rapid.Byte(), c.OvIVSize, c.OvIVSize).Draw(t, "ovIV")
+			if c.OvIVSize == 16 && cl.Scheme == "cenc" {
+				iv[8], iv[9], iv[10], iv[11] = 0, 0, 0, 0 // room for the block counter of a sample
+			}
+			c.OvIVs = append(c.OvIVs, iv)
+		}
+	}
 	c.Subs = make([][][2]uint32, n)
 	if cl.Video() {
 		c.UseSubs = true
@@ -276,6 +339,9 @@ func genThirdParty(t *rapid.T) tpCase {
 			ivs := 0
 			if cl.Scheme == "cenc" {
 				ivs = c.IVSize
+			}
+			if c.OverrideFrags != nil {
+				ivs = 16 // the larger of the IV sizes in the file
 			}
 			c.Subs[i] = genSubs(t, cl, i, style, ivs)
 		}
@@ -329,6 +395,14 @@ func tpClasses(c *tpCase) []string {
 	add(c.AuxType, "3p-aux-info-type-present")
 	add(c.SaioV1, "3p-saio-version-1")
 	add(c.Seig, "3p-seig-sample-group")
+	if c.OverrideFrags != nil {
+		all := true
+		for _, o := range c.OverrideFrags {
+			all = all && o
+		}
+		add(true, fmt.Sprintf("3p-seig-override-%s-iv%d", c.Clear.Scheme, c.OvIVSize))
+		add(!all, "3p-seig-override-in-some-fragments-only")
+	}
 	add(!c.Clear.Video() && c.UseSubs, "3p-audio-with-clear-lead")
 	add(c.Clear.Scheme == "cbcs" && c.Clear.Video() && c.Skip != 9, fmt.Sprintf("3p-cbcs-pattern-%d:%d", c.Crypt, c.Skip))
 	zero, odd := false, false
